@@ -15,6 +15,9 @@ SPEC = {
         "the differential run (emitted frames compared per op, both timer builds)",
         "the broadcast-ignore list and the default transmit/receive PGN lists are REGENERATED from src/NMEA2000.cpp on every run "
         "(tools/translators/pgn_tables.py); the library's default product/configuration strings are constants of the engine",
+        "received address claims (op aclaim) run N2k/Model/Claim.lean's handleClaim (C03's model of HandleISOAddressClaim / "
+        "GetNextAddress) inside this engine's poll; the oracle starts a device's 250 ms window when it sees the device's NAME "
+        "claimed from a new source address, and expects of a device on the null address nothing but its cannot-claim message",
         "the application handler is a parameter (what it accepts, what it hands to SendMsg for the device it was called for); "
         "HasPendingInformation is modelled as the flag it is (set by SetPending..., recomputed from both timers by Clear..., guarding "
         "the device in SendPendingInformation); the PendingIsoAddressClaim / NextDTSendTime terms of the disjunction are false here",
@@ -52,7 +55,9 @@ MANIFEST = {
             "requests (special PGNs +-1, ignore list, random and - thorough - all 2^24 PGNs against an independent decoder "
             "oracle plus 2^18 stratified through the model), 1..9 devices, handlers, strings beyond the limits, claim windows, "
             "driver refusals with retry, product AND configuration information refused together (same/different devices, "
-            "broadcast) with polls between and after both retry deadlines.",
+            "broadcast) with polls between and after both retry deadlines; "
+            "received address claims (defended / lost; a device driven over all 252 addresses to the null address 254) with "
+            "requests inside, at the edge of and after the 250 ms window that follows the cannot-claim message.",
     'design_ref': 'DESIGN.md section 4, C08',
     'note': "One defect of the pinned tree is fixed in the worktree (126998 requested with nothing configured was NAKed to "
             "address 255, also for broadcast requests); the model follows the fixed code. Trusted: Lean kernel; hand "
